@@ -413,6 +413,26 @@ theorem parse_or_log_never_raises (c : Cfg) (hc : ParamsVE c) (s : Str) :
     have := parse_total c hc s e he
     simp [this]
 
+theorem hexChar_isHex : ∀ n, n < 16 → isHexDigit (hexChar n) = true := by decide
+
+/-- **C11, the percent-encode table is total.**  For every byte value 0..255 and every encode set the
+encoder yields either the byte itself (a printable ASCII byte outside the set) or `%XY` with two hex
+digits — there is no byte without an entry (`PercentEncoderMap.__missing__` covers all 256). -/
+theorem percent_table_total (set : List Nat) (b : Nat) (hb : b < 256) :
+    (pctByte set b = [b] ∧ 0x20 ≤ b ∧ b ≤ 0x7E) ∨
+    (∃ x y, pctByte set b = [37, x, y] ∧ isHexDigit x = true ∧ isHexDigit y = true) := by
+  unfold pctByte
+  split
+  · right
+    exact ⟨_, _, rfl, hexChar_isHex _ (by omega), hexChar_isHex _ (by omega)⟩
+  · rename_i h
+    simp only [Bool.or_eq_true, decide_eq_true_eq, not_or, Bool.not_eq_true] at h
+    left
+    exact ⟨rfl, by omega, by omega⟩
+
+-- byte 0xFF (U+00FF under latin-1, U+044F under cp1251 …) is written %FF
+example : pctByte defaultSet 255 = [37, 70, 70] := by decide
+
 /-- **C11, the consumer of the logging variant.**  The link loop of
 `ProcessingRule._process_scrape_info` never raises on any list of scraped links: unparseable
 links are skipped, the others kept (at most one result per link). -/
